@@ -646,6 +646,7 @@ bool BW_MidiSequencer::buildSmfTrackData(const std::vector<std::vector<uint8_t> 
                 int len = snprintf(error, 150, "buildTrackData: Can't read variable-length value at begin of track %d.\n", (int)tk);
                 if((len > 0) && (len < 150))
                     m_parsingErrorsString += std::string(error, (size_t)len);
+                buildSmfSetupReset(0); // Nothing is loaded: don't leave a half-built song behind
                 return false;
             }
 
@@ -672,6 +673,7 @@ bool BW_MidiSequencer::buildSmfTrackData(const std::vector<std::vector<uint8_t> 
                 int len = snprintf(error, 150, "buildTrackData: Fail to parse event in the track %d.\n", (int)tk);
                 if((len > 0) && (len < 150))
                     m_parsingErrorsString += std::string(error, (size_t)len);
+                buildSmfSetupReset(0); // Nothing is loaded: don't leave a half-built song behind
                 return false;
             }
 
